@@ -279,6 +279,9 @@ def execute(history):
                         a_before = {n: p.detach().clone() for n, p in A.state_dict().items()}
                         b_before = closure(pmod).detach().clone()
                         torch.manual_seed(op["seed"])
+                        modes = (A.training, B.training)
+                        A.train()
+                        B.train()  # parameter edits happen in training mode (see apply_op)
                         try:
                             pmod.sample_from_prior(name.rsplit(".", 1)[-1])
                             out.stats["probe:copy_independence_checked"] += 1
@@ -293,6 +296,9 @@ def execute(history):
                             out.stats["rejected:sample_from_prior_on_copy"] += 1
                             # the rejected sample may have left either side unchanged; re-synchronise through the public API
                             B.load_state_dict(A.state_dict())
+                        finally:
+                            A.train(modes[0])
+                            B.train(modes[1])
             else:
                 for which, M in (("A", A), ("B", B)):
                     if M is None:
@@ -320,6 +326,21 @@ def execute(history):
 
 
 def apply_op(out, M, op, entry):
+    k = op["op"]
+    if k in ("set", "sample_prior", "step"):
+        # parameter edits are made in training mode (eval-mode kernel caches such as GridKernel._cached_kernel_mat are
+        # legitimately stale after an eval-mode edit - C03 excludes those); the mode switch is the documented invalidation
+        was = M.training
+        M.train()
+        try:
+            _edit(out, M, op)
+        finally:
+            M.train(was)
+        return
+    _edit(out, M, op)
+
+
+def _edit(out, M, op):
     k = op["op"]
     if k == "set":
         plist = params_of(M)
